@@ -73,8 +73,8 @@ def C07(tier):
     hs = [
         Harness("h_reset::reset_cpu", key="reset.cpu", domain=arb),
         Harness("h_reset::reset_master", key="reset.master", domain=arb),
-        Harness("h_reset::load_image_n0", key="load", domain=arb + "; empty image, limits symbolic", bounds="image length 0"),
-        Harness("h_reset::load_image_n3", key="load", domain=arb + "; 3 symbolic image bytes, limits symbolic", bounds="image length 3, unwind 242"),
+        Harness("h_reset::load_image_n0", key="load", timeout=2400, domain=arb + "; empty image, limits symbolic", bounds="image length 0"),
+        Harness("h_reset::load_image_n3", key="load", timeout=2400, domain=arb + "; 3 symbolic image bytes, limits symbolic", bounds="image length 3, unwind 242"),
         Harness("h_reset::load_image_n1", key="load", tier="thorough", timeout=1500, domain=arb + "; 1 image byte", bounds="image length 1"),
         Harness("h_reset::load_image_n8", key="load", tier="thorough", timeout=1500, domain=arb + "; 8 image bytes", bounds="image length 8"),
         Harness("h_reset::load_image_n16", key="load", tier="thorough", timeout=2400, domain=arb + "; 16 image bytes", bounds="image length 16"),
@@ -172,7 +172,7 @@ QUICK_TIMING = _re.compile(
 
 
 def _dom(m):
-    if m["kind"] in ("first", "halt"):
+    if m["kind"] in ("first", "halt", "first-int"):
         b = m["bytes"]
         op = "opcode %s" % ("0x%02X" % b[0] if len(b) == 1 else "0x%02X..0x%02X (register bits symbolic)" % (b[0], b[-1]))
         return ("boundary state at a fetch word, everything symbolic (R0-R7, flags, stale IR, pending commit, latch, flip-flop, wait, "
@@ -180,7 +180,7 @@ def _dom(m):
                 % (op, " ".join("%03X" % a for a in m["path"]), ",".join(m["labels"])))
     if m["kind"] == "fetch-equiv":
         return "fetch word %03X has a different content than the representative 006: same successor state from an arbitrary state" % m["path"][0]
-    if m["kind"] == "second":
+    if m["kind"] in ("second", "second-int"):
         b = m["bytes"]
         return ("arbitrary state at the second-byte fetch word 0x1E6 (R6 = source value, symbolic); second byte 0x%02X..0x%02X; "
                 "micro path %s" % (b[0], b[-1], " ".join("%03X" % a for a in m["path"])))
@@ -199,6 +199,8 @@ def _path_harnesses(kind, quick_re):
             continue
         if m["kind"] == "int-entry":
             continue
+        if kind == "arch" and (m["kind"].endswith("-int")):
+            continue  # interrupt-taken endings are C04's harnesses
         quick = bool(quick_re.match(fn)) or m["kind"] == "fetch-equiv"
         key = "%s.%s" % ("isa" if kind == "arch" else "cycles", m["cls"])
         hs.append(Harness("gen::paths::" + fn, key=key, domain=_dom(m), timeout=2400 if not quick else 1500,
@@ -348,6 +350,12 @@ def C04(tier):
                                   domain="arbitrary state with an 'int:' word current; entry routine 010..017 vs reference (push FR, push PC, IE and upper bits cleared, PC := 2)"))
             if m["fn"] == "i_reti_0":
                 hs.append(Harness("gen::paths::i_reti_0", key="int.reti", timeout=1500, domain=_dom(m)))
+            if m["kind"].endswith("-int") and m["fn"]:
+                q = m["fn"] in ("i_nop_0_int", "i_add_rs1_0_int", "i_push_0_int", "i_mul_exit_168_c1_int", "i_div_exit_188_int",
+                                "s_mov_mmi_0_int", "s_cmp_m_0_int", "i_jcs_1_int")
+                hs.append(Harness("gen::paths::" + m["fn"], key="int.sampled-at-" + m["cls"], timeout=2400, tier="quick" if q else "thorough",
+                                  domain="instruction whose last word takes the interrupt branch (IE and flip-flop set): architectural state at the "
+                                         "'int:' word == ISA reference of the instruction, flip-flop cleared; " + _dom(m)))
     hs.append(SAMEWORD_H)
     return dict(
         harnesses=hs, kani_extra=PATH_FLAGS, generators=[lambda: _safe_gen()],
